@@ -198,6 +198,10 @@ dt_strft(char *restrict buf, size_t bsz, const char *fmt, struct dt_t_s that)
 		if (spec.spfl == DT_SPFL_UNK) {
 			/* must be literal then */
 			*bp++ = *fp_sav;
+		} else if (UNLIKELY(eo - bp < 8)) {
+			/* the field printers assume there is room for a
+			 * short number and a suffix, don't run them dry */
+			break;
 		} else {
 			bp += __strft_card(bp, eo - bp, spec, &d, that);
 		}
